@@ -93,13 +93,23 @@ class Stats:
 
 class Engine:
     def __init__(self, query_timeout_ms: int = 30000, max_paths: int = 200000,
-                 max_seconds: float = 3600.0, name: str = ""):
+                 max_seconds: float = 3600.0, name: str = "", mode: str = "incremental"):
         self.name = name
+        # "incremental": one z3 solver with push/pop (fast for linear/boolean path conditions);
+        # an `unknown` is retried on a fresh solver (z3 then picks its nlsat-based strategy).
+        # "fresh": every query on a fresh solver (for harnesses that are non-linear throughout).
+        self.mode = mode
+        self.pc: List[Any] = []
+        self.small: List[Any] = []
         self.query_timeout_ms = query_timeout_ms
         self.max_paths = max_paths
         self.max_seconds = max_seconds
         self.solver = z3.Solver()
-        self.solver.set("timeout", query_timeout_ms)
+        self.solver.set("timeout", min(query_timeout_ms, 4000))
+        # a second solver that only ever sees *small* facts of the path condition; anything it proves
+        # follows from the path condition (sound for `implied`), and it stays fast
+        self.light = z3.Solver()
+        self.light.set("timeout", min(query_timeout_ms, 5000))
         self.stats = Stats()
         self.violations: List[Violation] = []
         self.inconclusive: List[str] = []
@@ -120,7 +130,9 @@ class Engine:
         self.stop_on_violation = False
         self._depth = 0
         self.scratch: Dict[str, Any] = {}
+        self.known: Dict[int, Any] = {}
         self.symbolic_pi = True
+        self.div_zero_policy = "fork"
 
     # ------------------------------------------------------------------ fresh symbols
     def _name(self, base: str) -> str:
@@ -154,7 +166,9 @@ class Engine:
 
     def real(self, name: str, npy: bool = False):
         from .values import SVal
-        return SVal(self.fresh_real(name), npy=npy)
+        from . import cpoly
+        t = self.fresh_real(name)
+        return SVal(t, npy=npy, cx=cpoly.var(str(t)))
 
     def boolean(self, name: str):
         from .values import SBool
@@ -171,7 +185,9 @@ class Engine:
 
     def complex(self, name: str, npy: bool = True):
         from .values import SVal
-        return SVal(self.fresh_real(name + ".re"), self.fresh_real(name + ".im"), npy=npy)
+        from . import cpoly
+        re_ = self.fresh_real(name + ".re")
+        return SVal(re_, self.fresh_real(name + ".im"), npy=npy, cx=cpoly.var(str(re_)[:-3]))
 
     def float_any(self, name: str, kinds=("finite", "+inf", "-inf", "nan")):
         """a float of any of the given kinds: finite ones symbolic, specials concrete"""
@@ -185,15 +201,101 @@ class Engine:
         self.inputs[name] = value
 
     # ------------------------------------------------------------------ solver plumbing
+    def _fresh_check(self, facts, extra, timeout_ms):
+        import threading
+        s = z3.Solver()
+        s.set("timeout", int(timeout_ms))
+        s.add(*facts)
+        s.add(*extra)          # asserted, not passed as assumptions: assumptions force the incremental core
+        # z3 does not always honour its own timeout on non-linear problems: interrupt it as well
+        tm = threading.Timer(timeout_ms / 1000.0 + 2.0, s.ctx.interrupt)
+        tm.daemon = True
+        tm.start()
+        if os.environ.get("SX_DUMP"):
+            with open(os.environ["SX_DUMP"], "w") as fp:
+                fp.write(s.to_smt2().replace("(check-sat)", "") + "".join("(assert %s)\n" % e.sexpr() for e in extra) + "(check-sat)\n")
+        try:
+            r = s.check()
+        except z3.Z3Exception:
+            r = z3.unknown
+        finally:
+            tm.cancel()
+        return r, s
+
+    # ---- counterexample guessing (never used to establish that something holds)
+    def _guess_model(self, neg, tries: int = 40):
+        """Try a few pseudo-random rational assignments of all free constants; an assignment that
+        satisfies the whole path condition and `neg` is a genuine model (it is then replayed like any
+        solver model).  Only used after the solver answered `unknown` on an assertion."""
+        import random
+        terms = list(self.pc) + ([neg] if neg is not None else [])
+        consts = {}
+        stack = list(terms)
+        seen = set()
+        while stack:
+            x = stack.pop()
+            i = x.get_id()
+            if i in seen:
+                continue
+            seen.add(i)
+            if z3.is_const(x) and x.decl().kind() == z3.Z3_OP_UNINTERPRETED:
+                consts[str(x)] = x
+            else:
+                stack.extend(x.children())
+        rng = random.Random(len(consts) * 7919 + 17)
+        base = None
+        r, s0 = self._fresh_check(self.small, (), 3000)
+        if str(r) == "sat":
+            base = s0.model()
+        names = sorted(consts)
+        for k in range(tries):
+            subst = []
+            for nm in names:
+                c = consts[nm]
+                if z3.is_bool(c):
+                    v = z3.BoolVal(rng.random() < 0.5)
+                elif z3.is_int(c):
+                    v = z3.IntVal(rng.randint(-3, 6))
+                else:
+                    if nm == "pi":
+                        v = z3.Q(355, 113)
+                    elif k % 3 == 2 and base is not None:
+                        v = base.eval(c, model_completion=True)
+                    else:
+                        v = z3.Q(rng.randint(1, 24) * rng.choice((1, 1, 1, -1)), rng.choice((1, 2, 3, 4, 5, 8, 10)))
+                subst.append((c, v))
+            ok = True
+            for t in terms:
+                v = z3.simplify(z3.substitute(t, *subst))
+                if not z3.is_true(v):
+                    ok = False
+                    break
+            if ok:
+                s = z3.Solver()
+                for c, v in subst:
+                    s.add(c == v)
+                if str(s.check()) == "sat":
+                    return s.model()
+        return None
+
     def _check(self, *extra) -> str:
         t0 = time.time()
         self.stats.queries += 1
-        r = self.solver.check(*extra)
-        self.stats.solver_s += time.time() - t0
+        holder = self.solver
+        if self.mode == "fresh":
+            r, holder = self._fresh_check(self.pc, extra, self.query_timeout_ms)
+        else:
+            r = self.solver.check(*extra)
+            if str(r) == "unknown":
+                r, holder = self._fresh_check(self.pc, extra, self.query_timeout_ms)
+        dt = time.time() - t0
+        self.stats.solver_s += dt
+        if dt > 5.0 and os.environ.get("SX_DEBUG"):
+            sys.stderr.write("[sx] slow query %.1fs -> %s: %s\n" % (dt, r, _short(extra, 300)))
         s = str(r)
         if s == "sat":
             try:
-                self.model = self.solver.model()
+                self.model = holder.model()
             except z3.Z3Exception:
                 self.model = None
         elif s == "unknown":
@@ -214,7 +316,36 @@ class Engine:
         return None
 
     def _add(self, term):
-        self.solver.add(term)
+        if self.mode != "fresh":
+            self.solver.add(term)
+        self.pc.append(term)
+        self._remember(term, True)
+        if _ast_size(term, 120) < 120:
+            self.small.append(term)
+
+    def _remember(self, term, val: bool):
+        """syntactic cache of asserted literals (cheap answers for repeated branch conditions)"""
+        try:
+            while z3.is_not(term):
+                term, val = term.arg(0), not val
+            self.known[term.get_id()] = (term, val)
+            if val and z3.is_and(term):
+                for c in term.children():
+                    self._remember(c, True)
+            if (not val) and z3.is_or(term):
+                for c in term.children():
+                    self._remember(c, False)
+        except Exception:
+            pass
+
+    def _known(self, term):
+        val = True
+        while z3.is_not(term):
+            term, val = term.arg(0), not val
+        hit = self.known.get(term.get_id())
+        if hit is None:
+            return None
+        return hit[1] if val else (not hit[1])
 
     # ------------------------------------------------------------------ decisions
     def decide(self, term) -> bool:
@@ -226,6 +357,9 @@ class Engine:
             return True
         if z3.is_false(term):
             return False
+        kn = self._known(term)
+        if kn is not None:
+            return kn
         i = len(self.trace)
         if i < len(self.prefix):
             val = self.prefix[i]
@@ -315,8 +449,9 @@ class Engine:
         if self.model is not None and self._model_says(term) is not True:
             self.model = None
 
-    def implied(self, cond) -> bool:
-        """Does the path condition imply cond?  (unknown counts as no)"""
+    def implied(self, cond, light: bool = True) -> bool:
+        """Does the path condition imply cond?  (unknown counts as no.)  With light=True only the
+        small facts of the path condition are used: a sound under-approximation that stays fast."""
         term = _as_term(cond)
         if isinstance(term, bool):
             return term
@@ -325,8 +460,17 @@ class Engine:
             return True
         if z3.is_false(term):
             return False
+        kn = self._known(term)
+        if kn is not None:
+            return kn
         if self._model_says(term) is False:
             return False
+        if light:
+            t0 = time.time()
+            self.stats.queries += 1
+            r, _ = self._fresh_check(self.small, (z3.Not(term),), min(self.query_timeout_ms, 5000))
+            self.stats.solver_s += time.time() - t0
+            return str(r) == "unsat"
         saved = self.model
         r = self._check(z3.Not(term))
         if r != "sat":
@@ -379,8 +523,10 @@ class Engine:
             rec[0] += 1
             return True
         if r == "unknown":
-            self.model = None
-            raise SxInconclusive("solver returned unknown on assertion '%s'" % label)
+            self.model = self._guess_model(neg)
+            if self.model is None:
+                raise SxInconclusive("solver returned unknown on assertion '%s'" % label)
+            r = "sat"
         self.stats.checks_sat += 1
         rec[1] += 1
         self._floatify_model(neg)
@@ -470,7 +616,11 @@ class Engine:
         self.model = None
         self.path_log = []
         self.scratch = {}
+        self.known = {}
+        self.div_zero_policy = "fork"
         self.solver.push()
+        self.pc = []
+        self.small = []
         prev = _CURRENT
         _CURRENT = self
         outcome = "ok"
@@ -539,6 +689,23 @@ class Engine:
             prefix = self.worklist.pop()
             self._run_path(harness, prefix)
         return [] if frontier else None
+
+
+def _ast_size(t, cap: int) -> int:
+    n = 0
+    stack = [t]
+    seen = set()
+    while stack:
+        x = stack.pop()
+        i = x.get_id()
+        if i in seen:
+            continue
+        seen.add(i)
+        n += 1
+        if n >= cap:
+            return n
+        stack.extend(x.children())
+    return n
 
 
 def _short(t, n=160):
